@@ -863,6 +863,9 @@ def install_std_stubs(E):
     S['free'] = mk_delete('malloc', 'free')
     def realloc(E, st, fr, I, A):
         old, n = A
+        if is_sym(n):
+            args = [(at, av, info) for (at, av, info) in I['args'] if av is not None]
+            return ('forks', E.fork_arg(st, fr, I, args, 1, 'reallocation size'))
         a = E.alloc(st, n, 'heap')
         if old:
             osz = st.allocs[old][0]
